@@ -16,7 +16,7 @@ import (
 // VerifC19Backend: a mix of concurrent requests (write, point read, range read, watch, two
 // compactions, three writers) on one node over the real in-memory engine, background loops running.
 func VerifC19Backend() {
-	be := backend.NewBackend(memkv.NewKvStorage(), backend.Config{Prefix: "/r", EnableEtcdCompatibility: true, WatchCacheSize: 2}, zzmodel.NoMetrics{})
+	be := backend.NewBackend(memkv.NewKvStorage(), backend.Config{Prefix: "/r", EnableEtcdCompatibility: true, WatchCacheSize: 1 + zzverif.Choose("cache", 2)}, zzmodel.NoMetrics{})
 	be.SetCurrentRevision(5)
 	key := []byte("/r/a")
 	_, err := be.Create(ctx, &proto.CreateRequest{Key: key, Value: []byte("v")})
